@@ -421,7 +421,9 @@ class Path:
 
 
 def conjuncts(test):
-    """[(text, polarity)] of a test split on `and`; `not X` flips polarity."""
+    """[(text, polarity)] of a test split on `and`, each atom in CANONICAL form so that equivalent spellings agree:
+    `not X` flips polarity; `X is not None` -> (`X is None`, False); `a != b` -> (`a == b`, False); `a not in b` ->
+    (`a in b`, False); all orderings become `<`: a>b -> (b < a), a<=b -> (b < a, False), a>=b -> (a < b, False)."""
     out = []
     if isinstance(test, ast.BoolOp) and isinstance(test.op, ast.And):
         for v in test.values:
@@ -431,7 +433,35 @@ def conjuncts(test):
     while isinstance(test, ast.UnaryOp) and isinstance(test.op, ast.Not):
         pol = not pol
         test = test.operand
+    if isinstance(test, ast.BoolOp) and isinstance(test.op, ast.Or) and not pol:
+        # not (a or b) == not a and not b
+        for v in test.values:
+            out.extend((t, not p) for t, p in conjuncts(v)) if len(conjuncts(v)) == 1 else out.append(("(%s)" % ast.unparse(v), False))
+        return out
+    if isinstance(test, ast.Compare) and len(test.ops) == 1:
+        l, r, op = ast.unparse(test.left), ast.unparse(test.comparators[0]), test.ops[0]
+        if isinstance(op, ast.IsNot):
+            return [("%s is %s" % (l, r), not pol)]
+        if isinstance(op, ast.NotEq):
+            return [("%s == %s" % (l, r), not pol)]
+        if isinstance(op, ast.NotIn):
+            return [("%s in %s" % (l, r), not pol)]
+        if isinstance(op, ast.Gt):
+            return [("%s < %s" % (r, l), pol)]
+        if isinstance(op, ast.LtE):
+            return [("%s < %s" % (r, l), not pol)]
+        if isinstance(op, ast.GtE):
+            return [("%s < %s" % (l, r), not pol)]
     return [(ast.unparse(test), pol)]
+
+
+def G(text, pol=True):
+    """Canonical (text, polarity) atom of a condition written as source text - for comparing with lexical guards."""
+    cj = conjuncts(ast.parse(text, mode="eval").body)
+    if len(cj) != 1:
+        raise ValueError("G() expects a single atom: %s" % text)
+    t, p = cj[0]
+    return (t, p if pol else not p)
 
 
 def _reads(text):
